@@ -102,8 +102,12 @@ def shard(binpath, seed, sh, n):
         if i % 3 == 0:
             # text-level variants around the document: each is judged on its own (one outcome over all channels)
             base = texts["plain"]
-            k = rng.randrange(27)
+            k = rng.randrange(30)
             tx, how = {
+                # (not for the "layout or link" wrapper type: its routes differ in decode target - untagged buffering recurses
+                # over an ignored member, typed readers skip it without recursing - and are compared per target only)
+                27: deep_member(base, d if t != "wrapper" else None, rng), 28: deep_member(base, d if t != "wrapper" else None, rng),
+                29: deep_member(base, d if t != "wrapper" else None, rng),
                 0: (base + "]", "trailing_bracket"), 1: (base + " x", "trailing_garbage"), 2: (base + base, "two_documents"),
                 3: (base + " \n\t\r\n", "trailing_whitespace"), 4: (base + ",", "trailing_comma"), 5: (base + "\x00", "trailing_nul"),
                 6: (" \n" + base, "leading_whitespace"), 7: ("\ufeff" + base, "leading_bom"), 8: (base[:max(1, len(base) - rng.randrange(1, 4))], "truncated"),
@@ -204,6 +208,28 @@ def long_list(base, d, rng):
     d2 = dict(d)
     d2[k] = (d[k] * (n // len(d[k]) + 1))[:n]
     return (json.dumps(d2, ensure_ascii=False), "list_with_more_than_128_elements")
+
+
+def deep_member(base, d, rng):
+    """an additional (ignored) member nested so that the document's total nesting lies around the text reader's limit of 128
+    levels, the innermost container empty or holding a scalar: every channel that gets the document at all reads it alike"""
+    if not isinstance(d, dict):
+        return (base + " \n", "trailing_whitespace")
+    depth = rng.choice([120, 124, 125, 126, 126, 127, 127, 128, 129])
+    inner = rng.choice(["", "1", '"x"', "null", "{}"])
+    open_, close = ("[", "]") if rng.random() < 0.7 else ('{"a":', "}")
+    val = open_ * depth + (inner if open_ == "[" or inner else "0") + close * depth
+    where = d.get("signed") if isinstance(d.get("signed"), dict) and rng.random() < 0.5 else d
+    txt = json.dumps(d, ensure_ascii=False)
+    if where is d:
+        tx = txt[:-1] + (", " if len(d) else "") + '"x-deep": ' + val + "}"
+    else:
+        marker = '"signed": {'
+        i = txt.find(marker)
+        if i < 0:
+            return (base + " \n", "trailing_whitespace")
+        tx = txt[:i + len(marker)] + '"x-deep": ' + val + (", " if len(where) else "") + txt[i + len(marker):]
+    return (tx, "member_nested_around_the_depth_limit")
 
 
 def two_spellings_of_a_member(base, rng):
